@@ -59,6 +59,8 @@ pub trait ArrayBuilder: Sized + Send + Sync + 'static {
 
     fn extend_from_nulls(&mut self, count: usize);
 
+    /// Replace the validity of the last `valid.len()` items (the ones appended most recently).
+    /// Items appended before them keep their validity.
     fn replace_bitmap(&mut self, valid: BitVec);
 
     /// Create a new builder with `capacity`.
